@@ -39,6 +39,17 @@ def _configs(tier):
             years = A.Y_B if nd <= 2 else A.Y_S
             days = "boundary" if nd <= 2 else "small"
         yield kind, rep, ts, zs, nd, years, days
+    if tier == "quick":
+        # the configurations with 3 and 4 deviations on a compact pool (thorough explores them in full above)
+        for kind, rep, ts, zs, nd, years, days in pools.configs(4):
+            if nd >= 3:
+                yield (kind, rep, CORNER_T if ts is pools.T_DEV else [pools.T_WHOLE[0], pools.T_WHOLE[-1]],
+                       CORNER_Z if zs is pools.Z_DEV else zs, nd, CORNER_Y, "small")
+
+
+CORNER_Y = [2000, 2003, -1]
+CORNER_T = pools.T_24 + [["hf", 23, 0.5], ["hmf", 12, 30, 0.3], ["hmsf", 23, 59, 59, 0.999999]]
+CORNER_Z = [[-5, -30], [99, 59]]
 
 
 def units(tier):
@@ -303,7 +314,8 @@ def vacuity(tier, counters, outcomes):
 def describe(tier):
     return {
         "rule": "deviation-bounded point pool (boundary years x boundary days x 3 representations x time forms incl. "
-                "24:00 and decimals x offsets); expanded years +-999999; every legal offset from 3 base points per "
+                "24:00 and decimals x offsets; quick: <= 2 deviations in full + the 23 configurations with 3-4 deviations on a compact "
+                "pool); year-edge days of a 14/28-year weekday cycle near midnight; expanded years +-999999; every legal offset from 3 base points per "
                 "representation; six-digit fraction boundaries and all 3-digit fractions in 5 decimal positions; "
                 "derived operands; complete custom dump formats = complete date form x precision-preserving time form x "
                 "zone form that spells the whole offset (or Z)",
